@@ -17,7 +17,7 @@ import z3
 from . import sym
 from .path import Path
 from .source import Source, FuncInfo
-from .values import (BoundBuiltin, BoundMethod, BuiltinRef, ClassRef, Closure, ExcVal, FuncRef, Infeasible,
+from .values import (HeapList, BoundBuiltin, BoundMethod, BuiltinRef, ClassRef, Closure, ExcVal, FuncRef, Infeasible,
                      ModuleRef, NOTIMPL, Obj, Opaque, PDict, PList, SArr, SBool, SInt, SMap, SName, SOpt,
                      SReal, SSeq, SSet, SStrOpaque, SpecFn, Unsupported, num_term, real_term)
 
@@ -138,6 +138,8 @@ class Interp:
             return self.truth(v.val, desc)
         if isinstance(v, PList):
             return len(v.items) > 0
+        if isinstance(v, HeapList):
+            return self.path.branch(self.schema.hl_len(self, v) > 0, desc + " nonempty")
         if isinstance(v, PDict):
             return len(v.items) > 0
         if isinstance(v, SSeq):
@@ -392,6 +394,8 @@ class Interp:
             return list(it)
         if isinstance(it, SArr) and isinstance(it.n, int):
             return [SReal(z3.Select(it.arr, k)) for k in range(it.n)]
+        if isinstance(it, HeapList):
+            return None
         if isinstance(it, (Obj, Opaque)):
             r = self.call_method(it, "__iter__", [], {}, None)
             return self.concrete_iter(r)
